@@ -460,9 +460,24 @@ func checkConfig(t *core.T, c []int) {
 			}
 		}
 	}
+	// what MarshalCedar / MarshalJSON hand out belongs to the caller
+	keepT, keepJ := string(text), string(js)
+	for k := range text {
+		text[k] = '#'
+	}
+	for k := range js {
+		js[k] = '#'
+	}
+	if t2, _ := s0.MarshalCedar(); string(t2) != keepT {
+		t.Fail(sig("returned-bytes-alias-internal-state:MarshalCedar"), desc, keepT, string(t2))
+	}
+	if j2, _ := s0.MarshalJSON(); string(j2) != keepJ {
+		t.Fail(sig("returned-bytes-alias-internal-state:MarshalJSON"), desc, keepJ, string(j2))
+	}
+	text = []byte(keepT)
 	t.AddStates(1)
 	t.AddTrans(6)
-	t.SampleF(func() string { return desc + ": " + string(text) })
+	t.SampleF(func() string { return desc + ": " + keepT })
 }
 
 func Check() *core.Check {
